@@ -73,7 +73,8 @@ def gen(t, tier):
           'ocean': bool(backend.get('link')) or bool(t.chance(0.2))}
     nops = t.randint(6, 18 if tier == 'quick' else 30)
     for _ in range(nops):
-        k = t.weighted([('req', 8), ('adv', 5), ('thr', 3), ('touch', 1), ('upfail', 1), ('seed', 1), ('req2', 3)])
+        k = t.weighted([('req', 8), ('adv', 5), ('thr', 3), ('touch', 1), ('upfail', 1), ('seed', 1), ('req2', 3),
+                        ('age', 2 if meta != [1, 1] else 1)])
         if k == 'req2':
             # two (or three) concurrent requests for the same or neighbouring tiles
             c = t.pick(pool)
@@ -100,6 +101,10 @@ def gen(t, tier):
                 sc['ops'].append(['thr', {'kind': kind}])
         elif k == 'touch':
             sc['ops'].append(['touch'])
+        elif k == 'age':
+            # one stored tile is older than its neighbours (what an interrupted refresh of a meta tile, a changed meta_size or
+            # tiles restored from a backup leave behind): its recorded time is moved back
+            sc['ops'].append(['age', t.pick(pool), t.pick([3, 60, 3600, 86400, 30 * 86400])])
         elif k == 'upfail':
             sc['ops'].append(['upfail', bool(t.choice(2))])
         else:
@@ -246,6 +251,32 @@ def _run(sc, tape):
         ts = _time.mktime(_time.strptime(row[1], '%Y-%m-%d %H:%M:%S'))     # recorded in local time
         return g, float(ts)
 
+    def age_tile(coord, dt, cache):
+        coord = tuple(coord)
+        if onsim:
+            path = cache.tile_location(Tile(coord))
+            try:
+                st = w.fs.stat(path, follow_symlinks=False, _yield=False)
+            except OSError:
+                return
+            import stat as _stat
+            if _stat.S_ISLNK(st.st_mode):
+                return      # the time of a link cannot be set through the portable API
+            w.fs.utime(path, (st.st_mtime - dt, st.st_mtime - dt))
+            probes['tiles_aged'] = probes.get('tiles_aged', 0) + 1
+            return
+        fn = os.path.join(cdir, 'sqlite', '%d.mbtile' % coord[2])
+        if not os.path.exists(fn):
+            return
+        db = sqlite3.connect(fn)
+        try:
+            db.execute("UPDATE tiles SET last_modified = datetime(last_modified, ?) WHERE tile_column=? AND tile_row=? AND zoom_level=?",
+                       ('-%d seconds' % dt,) + coord)
+            db.commit()
+            probes['tiles_aged'] = probes.get('tiles_aged', 0) + 1
+        finally:
+            db.close()
+
     def threshold_now():
         """the oracle's own idea of the threshold in force at this instant (None = no rule)"""
         t = state['thr']
@@ -305,6 +336,8 @@ def _run(sc, tape):
                     w.fs.utime(TRIGGER, None)
             elif k == 'upfail':
                 upfail[0] = op[1]
+            elif k == 'age':
+                age_tile(op[1], op[2], tm.cache)
             elif k == 'req':
                 _request(tm, [tuple(c) for c in op[1]], what, pool)
             elif k == 'req2':
@@ -410,7 +443,11 @@ def _run(sc, tape):
                 continue
             if a is None or g != a[0]:
                 raise Bad('wrong-generation', '%s: served generation %d for %s but the cache now holds %r' % (what, g, c, a))
-            if c in must_not and g != before[c][0]:
+            mx_, my_ = sc['meta_size']
+            # (a requested tile of the same meta tile that is stale, missing or in the unspecified same-second band)
+            shares_meta_tile_with_a_stale_one = any((m[0] // mx_, m[1] // my_, m[2]) == (c[0] // mx_, c[1] // my_, c[2])
+                                                    for m in coords if m not in must_not)
+            if c in must_not and g != before[c][0] and not shares_meta_tile_with_a_stale_one:
                 raise Bad('fresh-tile-refetched', '%s: tile %s is newer than the threshold but generation changed %d -> %d' % (
                     what, c, before[c][0], g))
 
@@ -450,15 +487,20 @@ def _run(sc, tape):
         t = state['thr']
         short_rel = t is not None and t['kind'] == 'rel' and t['n'] * UNIT_SECONDS[t['unit']] < 5
         wanted = set(c for r in reqs for c in r)
+        mx_, my_ = sc['meta_size']
+
+        def _cl(c):
+            b = before[c]
+            if b is None or thr is None:
+                return 'stale' if b is None else 'fresh'
+            return classify(b[1], (min(thr[0], thr2[0]), max(thr[1], thr2[1])))
         for c in wanted:
             b = before[c]
             n_ok = sum(1 for e in calls if e['ok'] and U.covers(e['bbox'], c))
-            if b is None or thr is None:
-                cl = 'stale' if b is None else 'fresh'
-            else:
-                thr_ = (min(thr[0], thr2[0]), max(thr[1], thr2[1]))
-                cl = classify(b[1], thr_)
-            if cl == 'fresh' and n_ok:
+            cl = _cl(c)
+            # a wanted tile that is not fresh drags the rest of its meta tile along
+            dragged = any(m != c and (m[0] // mx_, m[1] // my_) == (c[0] // mx_, c[1] // my_) and _cl(m) != 'fresh' for m in wanted)
+            if cl == 'fresh' and n_ok and not dragged:
                 raise Bad('fresh-tile-refetched', '%s: tile %s is newer than the threshold but the upstream was asked for it' % (what, c))
             if cl == 'stale':
                 decided[0] += 1
